@@ -116,6 +116,8 @@ def eval_expr(e, env: Env):
     """Evaluate an expression over MiniArrays / ints / lists."""
     if isinstance(e, ast.Constant):
         return e.value
+    if isinstance(e, (ast.Subscript, ast.Call)) and env.get("__by_text__") and norm(e) in env["__by_text__"]:
+        return env["__by_text__"][norm(e)]
     if isinstance(e, ast.Name):
         if e.id in env:
             return env[e.id]
